@@ -61,6 +61,15 @@ Definition in64 (z : Z) : bool := (-9223372036854775808 <=? z) && (z <=? 9223372
 
 Inductive skind := SInt | SInt64 | SFloat | SFloat64 | SString | SBoolean | SID | STime | SCustom.
 
+(* Time from seconds: a float is a number of seconds an int64 holds when it is finite and strictly
+   inside (-2^63, 2^63); an instant can be written as RFC 3339 when its year has four digits:
+   0000-01-01T00:00:00Z = -62167219200 s, 9999-12-31T23:59:59Z = 253402300799 s *)
+Definition flt_secs_ok (f : flt) : bool :=
+  f_finite f && (-9223372036854775808 <? f_trunc f) && (f_trunc f <? 9223372036854775808).
+Definition rfc_secs (z : Z) : bool := (-62167219200 <=? z) && (z <=? 253402300799).
+Definition rfc_flt (f : flt) : bool :=
+  ((-62167219200 <? f_trunc f) || ((f_trunc f =? -62167219200) && f_integral f)) && (f_trunc f <=? 253402300799).
+
 (* ------------------------------------------------------------------ input coercion of scalars *)
 (* (value, error?) — on error the value is nil *)
 Definition scalar_in (k : skind) (v : cv) : cv * bool :=
@@ -94,7 +103,7 @@ Definition scalar_in (k : skind) (v : cv) : cv * bool :=
   (* Time *)
   | STime, CTime t => (CTime t, false)
   | STime, CI KInt64 z => (CTime (TOfSecs z), false)
-  | STime, CFl (FIn f) => if f_w32 f then (CNil, true) else (CTime (TOfFlt (f_id f)), false)
+  | STime, CFl (FIn f) => if f_w32 f || negb (flt_secs_ok f) then (CNil, true) else (CTime (TOfFlt (f_id f)), false)
   | STime, CStr s => match s_time s with Some t => (CTime (TParsed t), false) | None => (CNil, true) end
   | _, _ => (CNil, true)
   end.
@@ -131,8 +140,9 @@ Definition scalar_out (k : skind) (v : cv) : cv * bool :=
   | SID, CStr s => (CStr s, false)
   | SID, CI _ z => (CStrOfInt z, false)
   | STime, CTime t => (CTimeText t, false)
-  | STime, CI KInt64 z => (CTimeText (TOfSecs z), false)
-  | STime, CFl (FIn f) => if f_w32 f then (CNil, true) else (CTimeText (TOfFlt (f_id f)), false)
+  | STime, CI KInt64 z => if rfc_secs z then (CTimeText (TOfSecs z), false) else (CNil, true)
+  | STime, CFl (FIn f) =>
+      if f_w32 f || negb (flt_secs_ok f) || negb (rfc_flt f) then (CNil, true) else (CTimeText (TOfFlt (f_id f)), false)
   | STime, CStr s => match s_time s with Some t => (CTimeText (TParsed t), false) | None => (CNil, true) end
   | _, _ => (CNil, true)
   end.
